@@ -52,6 +52,10 @@ CHECKS = {
                 technique="exhaustive metamorphic enumeration: every distribution of per-process and per-loom attributes over the threads and every enumerated stream order of one system must give byte-identical rows and PRV; every single contradiction at every stream must be refused with a message",
                 text="Base system 2 looms x 2 processes x 2 threads x 2 CPUs under 3/5 rank configurations (incl. ranked and unranked looms mixed, rank order opposite to name order, physical ids opposite to indices): every way of carrying app_id and rank on the non-empty thread subsets of each process, every covering family of CPU sub-lists in every array order (ascending and descending), and stream directory creation orders, alone and combined: thread.row, cpu.row, thread.prv and cpu.prv must be byte-identical to the canonical distribution and the rows must follow the documented ordering. Every single contradiction (app id, rank incl. rank 0, nranks, index<->phyid both ways, duplicate TID, no CPUs, no app id, rank missing in one process) at every stream and in both enumeration orders must exit 1 with an error message.",
                 note="Trusted: lib/obs.py writer, documented ordering encoded in checks/c13.py:expected_rows. One base system size."),
+    "C16": dict(level="model_checking", engine="E6 real ovnisort/ovniemu (ASan+UBSan)", ref="DESIGN.md 5 (C16)",
+                technique="exhaustive enumeration of a bounded stream grammar (event encodings x clocks x region placements) through the real ovnisort, compared with the stable sort of the original events; re-sort, check mode and emulation; small look-back windows",
+                text="Every stream made of OHx, <= 3-4/4-6 events cycling through plain, 16-byte-payload and jumbo encodings with clocks from a small set, every placement of <= 2 non-nested OU[ OU] regions (incl. empty ones) whose out-of-region events are sorted, and OHe - plus two-stream traces whose second stream sorts to its very beginning - is sorted by the real ovnisort: exit 0, same size, result byte-identical to the stable sort of the original events (so equal-clock order and the untouched prefix are implied), a second run changes nothing, ovnisort -c passes and ovniemu accepts. With look-back sizes 3, 4, 6: exit 0 implies sorted, failure only when the proper position is more than n-3 events back, and with a message.",
+                note="Trusted: lib/obs.py; the dead band n-3..n for the look-back window."),
     "C17": dict(level="model_checking", engine="E1 mark_driver + E3 emu_server + real ovniemu", ref="DESIGN.md 5 (C17)",
                 technique="exhaustive enumeration of short mark-API programs on the real libovni, of all pairs of per-thread definitions through the real ovniemu, and explicit-state walks of mark events on the real emulator against a stack/scalar reference",
                 text="(1) all 8.4k/170k programs of <= 3/4 operations over mark_type/mark_label/push/pop/set (incl. zero and negative values, out-of-range and undefined types, redefinitions): the runtime aborts with a diagnostic iff a documented reason applies, otherwise stream.json holds exactly the definitions and the stream exactly the events; (2) all 169 pairs of per-thread definitions of a type: the emulator refuses iff title, channel type or a label conflict, and merges agreeing labels into type 100 of thread.pcf and cpu.pcf; (3) walks of push/pop/set with values {0,1,2} on a defined stack or single type, a second type and an undefined type, on two threads with pause/cool/warm/resume: mismatched pop, wrong channel kind, undefined type and zero refused; thread row shown while active, CPU row while running.",
